@@ -358,7 +358,7 @@ def live_start(P, guarded=False):
 def b_types(ctx):
     """C05: inferred finite types contain every value ever held (checked after every statement)"""
     user = set((ctx.it.get("types") or {}).keys()) | set(ctx.res.get("user_typed", []))
-    live = live_start(ctx.normP, guarded=ctx.srcP["guard"] != ("true",))
+    live = live_start(ctx.normP, guarded=str(ctx.res.get("original_loop_guard", "true")).lower() not in ("true", "none"))
     k = 0
     for v, vals in ctx.res.get("typedefs", {}).items():
         if v in user or v not in ctx.normP["vars"]:
